@@ -115,6 +115,36 @@ def p_names(x):
     return None
 
 
+def p_reassigned(x):
+    """a relationship answers according to the name, operator and version it carries NOW: after an attribute is
+    assigned (or a copy is changed) the answer is that of a relationship built with the new values"""
+    import copy
+    op1, v1, op2, v2, cand = x
+    rel = deps.VersionedRelationship(name=NAME, operator=op1, version=v1)
+    first = rel.matches(NAME, cand)
+    fresh1 = deps.VersionedRelationship(name=NAME, operator=op1, version=v1).matches(NAME, cand)
+    if first is not fresh1:
+        return 'two relationships %s %s answer %r and %r for %r' % (op1, v1, first, fresh1, cand)
+    c = copy.copy(rel)
+    try:
+        rel.version = v2
+        rel.operator = op2
+        c.version = v2
+    except Exception:  # noqa  (immutable objects: nothing to check)
+        return None
+    want = deps.VersionedRelationship(name=NAME, operator=op2, version=v2).matches(NAME, cand)
+    got = rel.matches(NAME, cand)
+    if got is not want:
+        return 'after assigning operator %s and version %s to a relationship that was (%s %s), matches(%r) answers %r, a relationship built so answers %r' % (op2, v2, op1, v1, cand, got, want)
+    wantc = deps.VersionedRelationship(name=NAME, operator=op1, version=v2).matches(NAME, cand)
+    if c.matches(NAME, cand) is not wantc:
+        return 'a copy whose version was assigned %s answers %r for %r, expected %r' % (v2, c.matches(NAME, cand), cand, wantc)
+    rel.name = 'other'
+    if rel.matches(NAME, cand) is not None or rel.matches('other', cand) is not want:
+        return 'after the name was assigned, the relationship still answers for the old name'
+    return None
+
+
 def rand_tree(rng, depth=2):
     def leaf():
         k = rng.random()
@@ -137,6 +167,8 @@ def run(ctx):
                           'Or / And / match_relationships' % (len(vectors), W))
     fails = ctx.prop('prop:combinators', vectors, p_vector)
     fails += ctx.prop('prop:names', [(a, b) for a in REL_NAMES for b in REL_NAMES], p_names)
+    vs5 = ['1.0', '1.5', '2.0', '1.0-1', '2:0.1']
+    fails += ctx.prop('prop:reassigned', [(o1, a, o2, b, c) for o1 in ('>=', '<<') for o2 in ('>=', '<<', '=') for a in vs5 for b in vs5 for c in vs5], p_reassigned)
 
     # the operator table around each required version
     reqs = list(_ver.BOUNDARY) + ['1.0A', '1.0a', '2.1RC1', '2.1rc1', '1.0Z', '1.0z-1', '1aB', '1Ab'] + [v for v in (V.version(rng) for _ in range(ctx.n(40, 400))) if _ver.valid(v)]
